@@ -110,6 +110,9 @@ func c01Eval(sink c01Sink, nb c01Nb, con c01Construct, val string) *Case {
 	filesW, dataW := con.wrap(markup, "word")
 	got := renderPage(files, "page.vuego", data)
 	ref := renderPage(filesW, "page.vuego", dataW)
+	if con.name != "layout-var" {
+		pendingPages = append(pendingPages, pageCase("inert:"+sink.name+"/"+con.name, files, nil, "page.vuego", data, "construct:"+con.name))
+	}
 	c := &Case{Name: fmt.Sprintf("%s/%s/%s value %q", sink.name, nb.name, con.name, val),
 		Input: map[string]any{"sink": sink.name, "nb": nb.name, "construct": con.name, "value": val, "files": files},
 		Tags:  []string{"sink:" + sink.name, "construct:" + con.name, "nb:" + nb.name}}
@@ -150,6 +153,7 @@ func c01Eval(sink c01Sink, nb c01Nb, con c01Construct, val string) *Case {
 }
 
 func runC01(r *Run, replay *Case) {
+	defer flushPages(r)
 	find := func(name string) (c01Sink, bool) {
 		for _, s := range c01Sinks {
 			if s.name == name {
